@@ -45,7 +45,8 @@ func readCaseFile(path string) [][]string {
 			continue
 		}
 		switch {
-		case strings.HasPrefix(line, "case "):
+		case cur == nil && strings.HasSuffix(strings.SplitN(line, " ", 2)[0], "case"):
+			// block kinds: "case", "fcase", ... up to the line "end"
 			cur = []string{line}
 		case line == "end" && cur != nil:
 			cur = append(cur, line)
